@@ -13,6 +13,9 @@ def ask_sequence(c, cache_size=1024, storage='memory'):
     from vakt.guard import Guard
     from vakt.storage.memory import MemoryStorage
     pols = [specs.mk_policy(p) for p in c['policies']]
+    for i, f in c.get('tuples', ()):
+        if i < len(pols):
+            setattr(pols[i], f, tuple(getattr(pols[i], f)))      # element collections given as tuples
     st = MemoryStorage()
     for p in pols:
         st.add(p)
@@ -23,7 +26,15 @@ def ask_sequence(c, cache_size=1024, storage='memory'):
     before_p = [guardlib.snapshot_policy(p) for p in pols]
     before_q = [guardlib.snapshot_inquiry(q) for q in inqs]
     answers = []
+    exported = False
     for k in c['order']:
+        if k < 0:
+            # a read-only use of the policy set between two asks: every stored policy is serialised (an export, an audit
+            # dump, a copy to another store).  The policy set is unchanged, so the answers must be.
+            for p in st.policies.values():
+                p.to_json()
+            exported = True
+            continue
         try:
             r = g.is_allowed(inqs[k])
             answers.append(s_bool(r) if (r is True or r is False) else '<%r>' % (r,))
@@ -31,7 +42,9 @@ def ask_sequence(c, cache_size=1024, storage='memory'):
             answers.append(s_exc(e))
     after_p = [guardlib.snapshot_policy(p) for p in st.policies.values()]
     after_q = [guardlib.snapshot_inquiry(q) for q in inqs]
-    return answers, before_p == after_p, before_q == after_q
+    # to_json turns a tuple-valued field of the live object into a list (by design): snapshots carry types, so after an
+    # export only the answers and the inquiries are compared
+    return answers, exported or before_p == after_p, before_q == after_q
 
 
 FIELDS = (('subjects', 'subject'), ('resources', 'resource'), ('actions', 'action'))
@@ -95,7 +108,7 @@ class HistoryStream(Stream):
     case_type = 'hcase'
     run_fn = 'run_history'
     rule = ('a fixed generated policy set, a pool of 2-5 inquiries, and a sequence (<= 12 quick / 25 thorough) of '
-            'asks with repeats, per checker (every fifth history through a cached guard with one recycled Inquiry object); every answer is compared with the model and (oracle) with a fresh '
+            'asks with repeats, per checker (every fifth history through a cached guard with one recycled Inquiry object; every fifth with tuple-valued policy fields and the stored policies serialised with to_json between two asks); every answer is compared with the model and (oracle) with a fresh '
             'guard asked only that inquiry, for regex compile-cache capacities 1024/None/0/1/2; deep snapshots '
             '(types included) of stored policies and inquiries before/after. non-trivial = sequence with a '
             'repeated inquiry and both answers occurring')
@@ -123,10 +136,16 @@ class HistoryStream(Stream):
             case = {'checker': ck, 'policies': sc['policies'], 'rxtable': table, 'inquiries': inqs, 'order': order}
             if k % 5 == 4:
                 case['mode'] = 'cached_reuse'
+            elif k % 5 == 2 and sc['policies']:
+                # tuple-valued fields, and the stored policies serialised somewhere along the history
+                case['tuples'] = [[i, f] for i in range(len(sc['policies'])) for f in ('subjects', 'resources', 'actions')
+                                  if rng.random() < 0.5]
+                for _ in range(rng.choice([1, 1, 2])):
+                    order.insert(rng.randrange(1, len(order) + 1), -1)
             yield case
 
     def emit(self, c):
-        qs = [specs.e_inquiry(c['inquiries'][k]) for k in c['order']]
+        qs = [specs.e_inquiry(c['inquiries'][k]) for k in c['order'] if k >= 0]
         return '{| h_ck := %s; h_table := %s; h_pols := %s; h_inqs := %s |}' % (
             c['checker'], guardlib.e_table(c['rxtable']),
             e_list([specs.e_policy(p) for p in c['policies']], '(option policy)'), e_list(qs, 'inquiry'))
@@ -141,9 +160,10 @@ class HistoryStream(Stream):
         if not same_q:
             return 'asking for decisions modified an inquiry'
         fresh = {}
-        for k in set(c['order']):
+        asks = [k for k in c['order'] if k >= 0]
+        for k in set(asks):
             fresh[k] = ask_sequence(dict(c, order=[k], mode=None))[0][0]
-        for pos, k in enumerate(c['order']):
+        for pos, k in enumerate(asks):
             if ans[pos] != fresh[k]:
                 return ('answer %d (inquiry #%d) is %s after this history but %s on a fresh guard'
                         % (pos, k, ans[pos], fresh[k]))
@@ -155,12 +175,13 @@ class HistoryStream(Stream):
 
     def nontrivial(self, c, obs):
         a = obs.split(',')
-        return len(set(c['order'])) < len(c['order']) and 'T' in a and 'F' in a
+        asks = [k for k in c['order'] if k >= 0]
+        return len(set(asks)) < len(asks) and 'T' in a and 'F' in a
 
     def shrink(self, c):
         o = c['order']
         for i in range(len(o)):
-            if len(o) > 1:
+            if len([k for k in o[:i] + o[i + 1:] if k >= 0]) >= 1:
                 yield dict(c, order=o[:i] + o[i + 1:])
         ps = c['policies']
         for i in range(len(ps)):
